@@ -55,6 +55,13 @@ def check(ctx: Ctx, rep: Report):
     rep.rule("C02.R2", "AA55 response-type comparison is exact for every response type the package uses", 10)
     rep.rule("C02.R3", "layout agreement: validator length/role bytes, trim_response slice, get_offset map and first_address flow", 12)
     rep.rule("C02.R4", "Modbus: no refusing path is feasible for a conforming read / write answer (RTU: trailing bytes allowed)", 20)
+    rep.rule("C02.R7", "the value a write answer is compared with is the value the caller passed: the command factories hand their arguments on unchanged (shared with C18.R1 factory:*)", 8)
+    from .c18 import factories as _factories, Wire as _Wire
+    from ..core import Report as _Report
+    _sub = _Report("C18", rep.tier)
+    _factories(ctx, _sub, ctx.memo("wire", lambda: _Wire(ctx)))
+    for o in _sub.obligations:
+        rep.obligations.append(type(o)("C02.R7", o.key, o.where, o.what, o.status, o.detail))
     rep.rule("C02.R5", "echoed write value is compared in two's complement and every written value is in the signed 16-bit domain", 6)
     for fam in fams.values():
         rep.analysed_add("functions", fam.validator.qualname)
